@@ -183,6 +183,9 @@ Done == res # Pending
 \* ---- refinement invariants ------------------------------------------------
 InterExact == (Done /\ op = "and") => CellSet(res.l) = IdealInterCells(A, B)
 InterSingleNoDup == (Done /\ op = "and" /\ Len(A) = 1 /\ Len(B) = 1) => Len(res.l) <= 1
+\* a cell of the intersection is seen once per pair of areas that cover it
+InterMultiplicity == (Done /\ op = "and") =>
+   \A cell \in IdealInterCells(A, B) : Count(res.l, cell) = Count(A, cell) * Count(B, cell)
 UnionExact == (Done /\ op = "or") => res.l = IdealUnion(A, B)
 BoundExact == (Done /\ op = "add") => res = IdealBound(A, B)
 BoundContains == (Done /\ op = "add" /\ res.k = "rect") => CellSet(A \o B) \subseteq CellsOf(res.r)
@@ -211,5 +214,8 @@ Obl ==
       areas |-> CASE op = "or" -> IdealUnion(A, B)
                   [] op = "add" -> (IF IdealBound(A, B).k = "rect" THEN <<IdealBound(A, B).r>> ELSE <<>>)
                   [] OTHER -> <<>>,
+      mult |-> IF op = "and"
+               THEN {<<c[1], c[2], c[3], Count(A, c) * Count(B, c)>> : c \in IdealInterCells(A, B)}
+               ELSE {},
       err |-> op = "add" /\ IdealBound(A, B).k = "err"]))
 =============================================================================
